@@ -686,6 +686,20 @@ func (x *Exec) loop(st *State, node ast.Stmt, ord int, label string, mod map[typ
 	defer func() { x.curHidden = savedHidden }()
 
 	evalInv := func(st *State, cl Clause) Term {
+		// variables declared inside the loop body are out of scope at the loop head: an invariant that names `p` means
+		// the loop variable, not a body-local that shadows it
+		savedFrom, savedTo := x.hideFrom, x.hideTo
+		var realBody *ast.BlockStmt
+		switch n := node.(type) {
+		case *ast.ForStmt:
+			realBody = n.Body
+		case *ast.RangeStmt:
+			realBody = n.Body
+		}
+		if realBody != nil && realBody.Lbrace.IsValid() {
+			x.hideFrom, x.hideTo = realBody.Lbrace, realBody.End()
+		}
+		defer func() { x.hideFrom, x.hideTo = savedFrom, savedTo }()
 		env := x.specEnv(st)
 		return x.safeSpec(env, cl.Expr, fmt.Sprintf("loop %d invariant", ord))
 	}
